@@ -45,6 +45,12 @@ def dip_cfgs():
     return out
 
 
+def ragged_cfgs():
+    """coefficient lists of DIFFERENT lengths (the constructor pads the shorter ones with zeros): zs two entries shorter than rc, a one-entry zc, rs absent"""
+    return [dict(rc=[1.0, 0.1, 0.01, 0.002], zs=[0.0, 0.1], zc=[0.05], nfp=2, etabar=1.0, order='r1', nphi=31),
+            dict(rc=[1.0, 0.06], zs=[0.0, 0.05, 0.004, 0.001], rs=[0.0, 0.003, 0.001], nfp=3, etabar=1.1, order='r1', nphi=31)]
+
+
 def predict(cfg, rng, q=None, axis_only=False):
     out, n = [], 0
     if q is None:
@@ -137,7 +143,7 @@ def main():
         print(json.dumps(res, default=str)); return
     t0 = time.time(); tried = 0
     nn = a.n if a.mode == 'check' else 10 ** 6
-    for c_ in dip_cfgs():
+    for c_ in dip_cfgs() + ragged_cfgs():
         try:
             import logging, warnings
             logging.disable(logging.CRITICAL)
@@ -150,7 +156,7 @@ def main():
             continue
         v, n = predict(c_, rng, q_, axis_only=True)
         res['predictions_checked'] += n; res['violations'] += v; res['configs'] += 1
-        dist['curvature-dip'] = dist.get('curvature-dip', 0) + 1
+        dist['axis-only'] = dist.get('axis-only', 0) + 1
     for c_, q_ in corpus_objects():          # distilled regression inputs first
         v, n = predict(c_, rng, q_)
         res['predictions_checked'] += n; res['violations'] += v; res['configs'] += 1
